@@ -14,6 +14,7 @@ import Xsel.SpecStore
 import Xsel.Parse
 import Xsel.Render
 import Xsel.Deriv
+import Xsel.Lower
 import Generated.Facts
 open Xsel
 open Xsel.Syntax (Tok LTok LexRes ParseRes LexCfg Cfg lex parseToks parseModel parseSpec normCtx lexModel lexSpec cfgModel cfgSpec)
@@ -161,7 +162,8 @@ def encWalk : Except Walk.WErr Val → String
   | .error .panic => "panic"
   | .error (.err _) => "err"
 
-/-- the real forest: what the model of the handler walk computes on it (`walk=`), whether every node is
+/-- the real forest: what the model of the handler walk computes on it (`walk=`), whether the abstract syntax it
+    denotes is the model parser's reading of the string (`lower=`), whether every node is
     an instance of a production of the regenerated table (`valid=`), and — when the model's own parse of
     the string has a canonical spelling with exactly these tokens — whether the forest IS the
     derivation tree of that parse (`tree=`; `-`: other tokens) -/
@@ -173,7 +175,14 @@ def forestAnswer (a : Arena) (en : Env) (s : Nat) (pt : Walk.PT) (m : ParseRes) 
       let d := Walk.derivTop e
       if d.yield == pt.yield then (if ptEq d pt then "1" else "0") else "-"
     | _ => "-"
-  s!" walk={w} valid={valid} tree={tree}"
+  -- the abstract syntax the real forest denotes (Xsel/Lower.lean) against the model parser's reading
+  let low := match m with
+    | .ok e =>
+      (match Walk.lower pt with
+       | some e' => if Expr.same e' e then "1" else "0"
+       | none => "0")
+    | _ => "-"
+  s!" walk={w} valid={valid} tree={tree} lower={low}"
 
 def findDoc (st : DState) (id : String) : Option Arena := (st.docs.find? (fun p => p.1 == id)).map (·.2)
 
@@ -201,7 +210,7 @@ def handle (st : DState) (line : String) : DState × String :=
       let e := normCtx e0
       let fa := match decPT forest with
         | some pt => forestAnswer a en s pt (.ok e)
-        | none => " walk=unsup valid=- tree=-"
+        | none => " walk=unsup valid=- tree=- lower=-"
       (st, s!"model={encResult (Model.run a en s e)} spec={encResult (Spec.run a en s e)} speckf={encResult (Spec.runKF a en s e)}{fa}")
     | none, _, _, _ => (st, "bad-doc")
     | _, none, _, _ => (st, "bad-env")
@@ -244,7 +253,7 @@ def handle (st : DState) (line : String) : DState × String :=
       let fa := match m, decPT forest with
         | .unsup, _ => ""
         | _, some pt => forestAnswer a en s pt m
-        | _, none => " walk=unsup valid=- tree=-"
+        | _, none => " walk=unsup valid=- tree=- lower=-"
       (st, s!"model={run m (Model.run a en s)} spec={run sp (Spec.run a en s)} speckf={run sp (Spec.runKF a en s)} kf={kf}{fa}")
     | _, _, _, _ => (st, "bad-evalx")
   | some (.list [.atom "store", .list (.atom "evs" :: evs), ar]) =>
